@@ -397,6 +397,7 @@ func ResolveStateConflictsV2New(
 // FIXME: this function does not sort correctly because it doesn't lookup PL events
 // correctly, meaning it will sort incorrectly for PL tiebreaks.
 func ReverseTopologicalOrdering(input []PDU, order TopologicalOrder) []PDU {
+	input = uniqueEvents(input)
 	r := stateResolverV2{
 		resolvedCreate: getCreateEvent(input),
 	}
@@ -411,6 +412,7 @@ func ReverseTopologicalOrdering(input []PDU, order TopologicalOrder) []PDU {
 // FIXME: this function does not sort correctly because it doesn't lookup PL events
 // correctly, meaning it will sort incorrectly for PL tiebreaks.
 func HeaderedReverseTopologicalOrdering(events []PDU, order TopologicalOrder) []PDU {
+	events = uniqueEvents(events)
 	r := stateResolverV2{
 		resolvedCreate: getCreateEvent(events),
 	}
@@ -422,6 +424,22 @@ func HeaderedReverseTopologicalOrdering(events []PDU, order TopologicalOrder) []
 	result := make([]PDU, len(input))
 	for i, e := range r.reverseTopologicalOrdering(input, order) {
 		result[i] = e
+	}
+	return result
+}
+
+// uniqueEvents drops repeated entries (same event ID) from the list, keeping the first. An
+// event listed twice would count twice against its ancestors in Kahn's algorithm, which then
+// never become ready and are emitted by power level and timestamp instead of topologically.
+func uniqueEvents(events []PDU) []PDU {
+	seen := make(map[string]struct{}, len(events))
+	result := make([]PDU, 0, len(events))
+	for _, event := range events {
+		if _, ok := seen[event.EventID()]; ok {
+			continue
+		}
+		seen[event.EventID()] = struct{}{}
+		result = append(result, event)
 	}
 	return result
 }
